@@ -21,4 +21,4 @@ pub mod poseidon_tree {
 #[path = "../../vlib/vlib.rs"]
 pub mod vlib;
 pub mod stubs;
-pub mod c13_verify;
+pub mod c02_c13;
